@@ -1403,6 +1403,14 @@ class SymEval:
                     return ("idx", base, idx)
             if base[0] in ("tuple", "list") and isinstance(idx[1], int) and -len(base[1]) <= idx[1] < len(base[1]):
                 return base[1][idx[1]]
+            if base[0] == "dict" and len(base) >= 3 and base[1] and all(is_const(k_) for k_ in base[1]):
+                # D[k] on a dict display with constant keys: the value written for that key (the last one, as Python keeps it)
+                try:
+                    hits = [v_ for k_, v_ in zip(base[1], base[2]) if k_[1] == idx[1] and type(k_[1]) is type(idx[1])]
+                except Exception:  # noqa: BLE001
+                    hits = []
+                if hits:
+                    return hits[-1]
         if idx[0] == "elem" and idx[1][0] == "call" and idx[1][2] == ("builtin", "range") and len(idx[1][3]) == 1 and not idx[1][4]:
             n = idx[1][3][0]
             if n[0] == "call" and n[2] == ("builtin", "len") and len(n[3]) == 1 and _same_value(n[3][0], base):
@@ -1737,7 +1745,8 @@ class SymEval:
 
 def _rotate_primed_loops(stmts):
     """P; while T: B; P   (the same simple assignment P before the loop and as the last statement of its body, no continue in B, T reads
-    P's target)  is  while True: P; if not T: break; B  - the form with a single consume site per iteration that the loop rules follow."""
+    P's target)  is  while True: P; if not T: break; B  - the form with a single consume site per iteration that the loop rules follow.
+    With an `else` clause E (free of break / continue):  while True: P; if not T: E; break; B."""
     if len(stmts) < 2 or not any(isinstance(x, ast.While) for x in stmts):
         return stmts
     cached = getattr(stmts[0], "_sa_rotated_block", None)
@@ -1747,15 +1756,16 @@ def _rotate_primed_loops(stmts):
     while i < len(stmts):
         p_ = stmts[i]
         w = stmts[i + 1] if i + 1 < len(stmts) else None
-        if (isinstance(p_, ast.Assign) and isinstance(w, ast.While) and not w.orelse and len(w.body) >= 1 and isinstance(w.body[-1], ast.Assign)
+        if (isinstance(p_, ast.Assign) and isinstance(w, ast.While) and not _has(w.orelse, (ast.Break, ast.Continue)) and len(w.body) >= 1 and isinstance(w.body[-1], ast.Assign)
                 and ast.dump(p_) == ast.dump(w.body[-1]) and len(p_.targets) == 1 and isinstance(p_.targets[0], ast.Name)
                 and any(isinstance(n, ast.Name) and n.id == p_.targets[0].id for n in ast.walk(w.test))
                 and not _has(w.body[:-1], (ast.Continue,)) and p_.targets[0].id not in _assigned_names(w.body[:-1])
                 and not (isinstance(w.test, ast.Constant))):
-            brk = ast.If(test=ast.UnaryOp(op=ast.Not(), operand=w.test), body=[ast.Break()], orelse=[])
+            # (an `else` clause runs exactly when the test fails - not on a `break` of the body: it moves in front of the added break)
+            brk = ast.If(test=ast.UnaryOp(op=ast.Not(), operand=w.test), body=list(w.orelse) + [ast.Break()], orelse=[])
             ast.copy_location(brk, w.test)
             ast.copy_location(brk.test, w.test)
-            ast.copy_location(brk.body[0], w.test)
+            ast.copy_location(brk.body[-1], w.test)
             nw = ast.While(test=ast.Constant(value=True), body=[w.body[-1], brk] + list(w.body[:-1]), orelse=[])
             ast.copy_location(nw, w)
             ast.copy_location(nw.test, w.test)
